@@ -52,6 +52,11 @@ MFTable == <<
   <<"NewNxARPShaMatchField", "NXM_NX_ARP_SHA", 6, 2>>, <<"NewNxARPThaMatchField", "NXM_NX_ARP_THA", 6, 2>>,
   <<"NewNxARPSpaMatchField", "NXM_OF_ARP_SPA", 4, 2>>, <<"NewNxARPTpaMatchField", "NXM_OF_ARP_TPA", 4, 2>> >>
 NMF == Len(MFTable)
+\* match-field kinds the library can decode (the others have an encoder only)
+DecodableMF == {k \in 1..Len(MFTable) : MFTable[k][1] \notin {"NewActsetOutputField", "NewNxARPSpaMatchField", "NewNxARPTpaMatchField"}}
+IsDecodable(k) == k \in DecodableMF
+DecSeq == SelectSeq([i \in 1..Len(MFTable) |-> i], IsDecodable)
+DecMF(j) == DecSeq[1 + (j % Len(DecSeq))]
 MFTree(name, val, masked, mask) ==
   IF masked THEN [T |-> "MatchField", Class |-> BE16(ClassOf(name)), Field |-> <<FieldOf(name)>>, HasMask |-> TRUE, Value |-> val, Mask |-> mask]
   ELSE [T |-> "MatchField", Class |-> BE16(ClassOf(name)), Field |-> <<FieldOf(name)>>, HasMask |-> FALSE, Value |-> val]
@@ -229,6 +234,8 @@ PacketOutEl(n, acts, datalen, tag) ==
   LET t == [T |-> "PacketOut", Header |-> [Xid |-> Xid(tag)], BufferId |-> V(tag, 4), InPort |-> V(tag + 1, 4), Actions |-> TreesOf(acts), Data |-> [T |-> "Buffer", B |-> V(tag + 2, datalen)]] IN
   El(n, t, OpsOf(acts) \o <<New(n, "NewPacketOut", <<>>), Set(n, "Xid", t.Header.Xid), Set(n, "BufferId", t.BufferId), Set(n, "InPort", t.InPort)>>
        \o [i \in DOMAIN acts |-> Call(n, "AddAction", <<Ref(acts[i].n)>>)] \o <<Call(n, "SetData", <<t.Data.B>>)>>)
+SimpleKinds == {"echoreq", "echorep", "featreq", "confreq", "barrier", "hello", "setconfig", "portmod", "setctrlid", "tlvreq"}
+MpKinds == {"desc", "flow", "aggregate", "table", "portdesc"}
 SimpleEl(n, kind, tag) ==
   CASE kind = "echoreq"  -> El(n, [T |-> "Header", Type |-> <<2>>, Xid |-> Xid(tag)], <<New(n, "NewEchoRequest", <<>>), Set(n, "Xid", Xid(tag))>>)
     [] kind = "echorep"  -> El(n, [T |-> "Header", Type |-> <<3>>, Xid |-> Xid(tag)], <<New(n, "NewEchoReply", <<>>), Set(n, "Xid", Xid(tag))>>)
